@@ -212,9 +212,25 @@ type fileMon struct {
 	lastStart int64
 	haveStart bool
 	opens     []string
+	// rows: readers that are being read in a row without a seek in between; the place such a reader is at is then
+	// this, not the offset of its last seek that the hook reports
+	rows map[*files.Reader]int
 }
 
 var fm fileMon
+
+func fileMonRow(r *files.Reader, off int) {
+	fm.mu.Lock()
+	if fm.rows == nil {
+		fm.rows = map[*files.Reader]int{}
+	}
+	if off < 0 {
+		delete(fm.rows, r)
+	} else {
+		fm.rows[r] = off
+	}
+	fm.mu.Unlock()
+}
 
 func readHook(r *files.Reader, op string, offset int, length int, buf []byte, n int) {
 	fm.mu.Lock()
@@ -227,6 +243,10 @@ func readHook(r *files.Reader, op string, offset int, length int, buf []byte, n 
 		return
 	}
 	size := r.Size()
+	if at, ok := fm.rows[r]; ok && op == "read" {
+		offset = at
+		fm.rows[r] = at + n
+	}
 	okAny := false
 	for _, t := range fm.truths {
 		if len(t) != size {
@@ -281,6 +301,7 @@ func startFileMon(truths [][]byte) {
 	fm.reads, fm.mismatch, fm.fwd, fm.back, fm.edge, fm.lastByte = 0, "", 0, 0, 0, 0
 	fm.haveStart = false
 	fm.opens = nil
+	fm.rows = nil
 	fm.mu.Unlock()
 }
 
